@@ -9971,7 +9971,7 @@ class Format_Item_List(SequenceBase):  # pylint: disable=invalid-name
             if match:
                 # The current item matches with a hollerith string.
                 match_str = match.group(0)
-                hol_length_str = match_str[:-1]
+                hol_length_str = match_str[:-1].replace(" ", "")
                 hol_length = int(hol_length_str)
                 num_chars = len(match_str) + hol_length
                 if len(current_string) < num_chars:
